@@ -536,4 +536,35 @@ func checkOptionWordMonotone(c *Ctx, rule, field string, extBit int64, why strin
 	if n == 0 {
 		c.Fail(rule, "stores to "+field, token.NoPos, "UNDECIDED: no store to NetworkRule."+field+" found")
 	}
+	// whether a value is or-ed in depends on the modifier being parsed, not on what the words
+	// hold already: "$script,~image" and "$~image,script" are the same rule
+	if strings.HasSuffix(field, "RequestTypes") {
+		seenFn := map[*ssa.Function]bool{}
+		for _, w := range ws {
+			if seenFn[w.Fn] || w.Fn.Signature.Recv() == nil {
+				continue
+			}
+			seenFn[w.Fn] = true
+			g := NewGate(c.P)
+			g.Inline = inlineOnly()
+			s := g.Eval(w.Fn)
+			u := g.U
+			recv := g.ParamExprs(w.Fn)[0]
+			for _, ef := range s.Effects {
+				if ef.Kind != "store" || ef.Addr.Op != "faddr" || ef.Addr.Aux != field || len(ef.Addr.Args) == 0 || ef.Addr.Args[0] != recv {
+					continue
+				}
+				dep := ""
+				for _, at := range u.AtomsOf(ef.Cond) {
+					if u.Mentions(at, func(x *E) bool {
+						return x.Op == "field" && strings.HasSuffix(x.Aux, "RequestTypes") && len(x.Args) > 0 && x.Args[0] == recv
+					}) {
+						dep = clip(u.Show(at), 100)
+					}
+				}
+				c.Check(dep == "", rule, shortFn(w.Fn)+": "+field+" is or-ed into whatever the words hold", ef.Pos, "the store's condition reads only what is being parsed",
+					"whether the content type is recorded depends on the types recorded before ("+dep+"): the same modifiers written in another order give another rule, and a type that is skipped no longer counts as a modifier in the priority key")
+			}
+		}
+	}
 }
